@@ -115,6 +115,15 @@ static void hint_prog()
     rt::start(c);
     auto sched = ex::thread_pool_scheduler{};
     pmc_watch(&ev, sizeof ev, "event");
+    // 1: before the hinted work is created a task switches stealing off and on again for the pool's scheduler (the
+    // usual pair around a phase that must not be disturbed); a static policy stays non-stealing whatever is asked
+    int toggle = pmc_choose(2, 0);
+    if (toggle)
+        rt::tt::sync_wait(ex::schedule(sched) | ex::then([] {
+            auto* sb = pika::threads::detail::get_self_id_data()->get_scheduler_base();
+            sb->remove_scheduler_mode(pika::threads::scheduler_mode::enable_stealing);
+            sb->add_scheduler_mode(pika::threads::scheduler_mode::enable_stealing);
+        }));
     ex::execute(ex::with_hint(sched, pika::execution::thread_schedule_hint(h)), [&] {
         rt::watch_self("hinted");
         phases[nph++] = (int) pika::get_local_worker_thread_num();
@@ -142,7 +151,7 @@ static void hint_prog()
         PMC_ASSERT(phases[i] == h, "wrong-worker", "phase %d of the task hinted to worker %d ran on worker %d (policy %s)", i, h, phases[i], pol[POLICY]);
     for (int i = 0; i < 3; ++i)
         PMC_ASSERT(bulk_worker[i] == h, "wrong-worker", "element %d of bulk on a scheduler hinted to worker %d ran on worker %d (policy %s)", i, h, bulk_worker[i], pol[POLICY]);
-    pmc_outcome("h=%d", h);
+    pmc_outcome("h=%d toggle=%d", h, toggle);
 }
 
 // the same on a pool that is not the first one (its workers' global numbers differ from their local
